@@ -45,10 +45,17 @@ class Recorder:
         self.table = {}
         self.args = []
         self.mutate = mutate
+        self.kept = []
+
+    def stale(self):
+        """a function may keep the list it was handed (a 'collect' aggregation): every kept list must still hold the values of
+        its own call once the whole aggregate / window call has returned (minus what the function itself did to it)"""
+        return any(k is not None and list(k) != want for k, want in self.kept)
 
     def __call__(self, vals):
         arg = vals
         vals = list(vals)
+        self.kept.append((arg if isinstance(arg, list) and not self.mutate else None, list(vals)))
         if self.mutate and isinstance(arg, list):
             # a user function may use its argument as scratch space (sort it, pop from it): every call must have been handed
             # the group's values in a list of its own
@@ -154,6 +161,7 @@ def run_raw(spec, which=("agg",)):
         for w in which:
             for r in recs:
                 r.log = []
+                r.kept = []
             kw = call_kwargs(t, ext, spec, recs)
             try:
                 res = (t.aggregate if w == "agg" else t.window)(**kw)
@@ -161,6 +169,10 @@ def run_raw(spec, which=("agg",)):
             except Exception as e:
                 o = {"err": err_class(e)}
             o["logs"] = [list(r.log) for r in recs]
+            if any(r.stale() for r in recs):
+                # the group lists handed to an apply function were reused / rewritten after the call: report it as a log that no
+                # longer shows each group's values (the judge compares the logs with the groups)
+                o["logs"] = [[list(k) if k is not None else want for k, want in r.kept] for r in recs]
             out[w] = o
         out["ftabs"] = [[[a, r.table[tuple((type(v).__name__, repr(v)) for v in a)]] for a in r.args] for r in recs]
     return out
